@@ -362,11 +362,19 @@ func replayCLI(p *PathResult, mod *Model, id string) (bool, string) {
 	cmd := exec.Command(bin, args...)
 	cmd.Dir = dir
 	env := []string{"PATH=" + os.Getenv("PATH"), "HOME=" + dir, "HTTPS_PROXY=http://127.0.0.1:9", "https_proxy=http://127.0.0.1:9"}
-	if r, err := mod.Eval(TVar("env.ATLAS_PUBLIC_KEY", SStr)); err == nil && r.(string) != "" {
-		env = append(env, "ATLAS_PUBLIC_KEY="+r.(string))
-	}
-	if r, err := mod.Eval(TVar("env.ATLAS_PRIVATE_KEY", SStr)); err == nil && r.(string) != "" {
-		env = append(env, "ATLAS_PRIVATE_KEY="+r.(string))
+	for _, nm := range []string{"ATLAS_PUBLIC_KEY", "ATLAS_PRIVATE_KEY"} {
+		val := ""
+		if r, err := mod.Eval(TVar("env."+nm, SStr)); err == nil {
+			val = r.(string)
+		}
+		// exported with an empty value (os.LookupEnv distinguishes this from unset)
+		setEmpty := false
+		if b, ok := mod.Bool["envset."+nm]; ok && b {
+			setEmpty = true
+		}
+		if val != "" || setEmpty {
+			env = append(env, nm+"="+val)
+		}
 	}
 	cmd.Env = env
 	if bval("stdinPiped") {
